@@ -424,3 +424,87 @@ Definition master_tree (d : deck) (l : nat) : list shape :=
   end.
 Definition slide_geom (c : cfg) (d : deck) (sl : slide) (a : attr) (sp : shape) : res (option Z) :=
   slide_eff c a (master_tree d (sl_layout sl)) (layout_tree d (sl_layout sl)) sp.
+
+(** boolean distinctness, for the sanity obligations over the generated tables (a python dict
+    literal with a repeated key keeps the LAST value, [assoc] returns the first) *)
+Fixpoint distinctN (l : list N) : bool :=
+  match l with
+  | [] => true
+  | x :: l' => negb (memN x l') && distinctN l'
+  end.
+
+Definition gen_sane : bool :=
+  distinctN (map fst basename_slide) && distinctN (map fst basename_notes) &&
+  distinctN (map fst layout_master_map) && distinctN all_ph_types &&
+  (numpart_offset <=? 1)%N &&
+  forallb (fun t => memN t all_ph_types) (latent_types ++ notes_cloneable ++ txbody_types) &&
+  memN default_type all_ph_types && (orient_vert <? n_orients)%N && (default_orient <? n_orients)%N &&
+  (default_sz <? n_szs)%N && negb (N.eqb orient_vert default_orient).
+
+(** * Vocabulary of the statements in props/C13.v (specification-level definitions) *)
+(** what a freshly cloned shape looks like, relative to the placeholder record it was cloned from *)
+Definition cloned (c : cfg) (p : ph) (s : shape) : Prop :=
+  (exists p', s_ph s = Some p' /\ key p' = key p) /\
+  s_off s = None /\ s_ext s = None /\ s_txbody s = memN (ph_type p) (c_txbody c).
+
+(** [sp] is a fresh clone of the layout (or master) placeholder shape [lp] *)
+Definition clone_of (c : cfg) (lp sp : shape) : Prop :=
+  exists p, s_ph lp = Some p /\ cloned c p sp.
+
+Definition idx_pred (i : N) (s : shape) : bool :=
+  match s_ph s with Some p => N.eqb (ph_idx p) i | None => false end.
+
+(** the layout placeholder a slide placeholder cloned from [lp] inherits from: the FIRST
+    placeholder of the layout tree with the idx of [lp] *)
+Definition first_with_idx (Ls : list shape) (lp : shape) : shape :=
+  match layout_get Ls (sh_idx lp) with Some x => x | None => lp end.
+
+Definition same_pair (a b : attr) : bool :=
+  match a, b with
+  | ALeft, ALeft | ALeft, ATop | ATop, ALeft | ATop, ATop => true
+  | AWidth, AWidth | AWidth, AHeight | AHeight, AWidth | AHeight, AHeight => true
+  | _, _ => false
+  end.
+
+Definition sh_type (s : shape) : N := match s_ph s with Some p => ph_type p | None => default_type end.
+
+Definition type_pred (t : N) (s : shape) : bool :=
+  match s_ph s with Some p => N.eqb (ph_type p) t | None => false end.
+
+(** the notes-master placeholder a notes-slide placeholder cloned from [mp] inherits from: the
+    FIRST placeholder of the notes master with the type of [mp] *)
+Definition first_with_type (NM : list shape) (mp : shape) : shape :=
+  match master_get NM (sh_type mp) with Some x => x | None => mp end.
+
+Definition idx_le (a b : shape) : Prop := (sh_idx a <= sh_idx b)%N.
+
+(** a one-placeholder witness deck for a type [t] *)
+Definition wit_shape (t : N) : shape := mk_shape 2%N [] (Some (mk_ph (Some t) None None None)) None None false.
+Definition wit_deck (t : N) : deck := mk_deck [[]] [mk_layout 0 [wit_shape t]] [] [] None.
+
+(** a small table set for non-vacuity examples that do not depend on the generated tables *)
+Definition toy_cfg : cfg :=
+  mk_cfg [16%N] [2%N] [(1%N, [84%N]); (3%N, [67%N])] [(2%N, [78%N])] [(1%N, 1%N)] [1%N].
+
+(** witness deck for duplicate idx values: two title placeholders without idx attribute *)
+Definition dup_deck : deck :=
+  mk_deck [[]]
+    [mk_layout 0 [mk_shape 2%N [] (Some (mk_ph (Some 1%N) None None None)) (Some (10, 20)%Z) (Some (30, 40)%Z) true;
+                  mk_shape 3%N [] (Some (mk_ph (Some 1%N) None None None)) (Some (50, 60)%Z) (Some (70, 80)%Z) true]]
+    [] [] None.
+
+(** a layout with every flavour: missing type and idx, duplicate types, vertical, sizes,
+    latent ones in between, a non-placeholder shape *)
+Definition ex_layout : layout :=
+  mk_layout 0
+    [mk_shape 7%N [] (Some (mk_ph (Some 1%N) None None None)) (Some (1, 2)%Z) (Some (3, 4)%Z) true;
+     mk_shape 9%N [] None (Some (0, 0)%Z) None false;
+     mk_shape 8%N [] (Some (mk_ph (Some 2%N) (Some 1%N) (Some 1%N) (Some 1%N))) None None true;
+     mk_shape 3%N [] (Some (mk_ph (Some 16%N) (Some 10%N) None (Some 1%N))) None None true;
+     mk_shape 4%N [] (Some (mk_ph None (Some 1%N) None None)) None (Some (5, 6)%Z) false;
+     mk_shape 5%N [] (Some (mk_ph (Some 2%N) (Some 4294967295%N) None (Some 2%N))) None None true;
+     mk_shape 6%N [] (Some (mk_ph (Some 13%N) (Some 12%N) None None)) None None true].
+Definition ex_deck : deck :=
+  mk_deck [[mk_shape 2%N [] (Some (mk_ph (Some 2%N) (Some 1%N) None None)) (Some (11, 12)%Z) (Some (13, 14)%Z) true]]
+          [ex_layout] [mk_slide 0 [] None] [] None.
+
